@@ -153,3 +153,14 @@ class Timer:
 
     def __call__(self):
         return time.time() - self.t0
+
+
+def crash_record(op, ex, **extra):
+    """A per-case function raised: on the unchanged tree none does, so the library returned something the harness could
+    not interpret (a result inconsistent with its own class / system / fields) or raised where every case expects an
+    answer.  Reported as a finding about that case instead of aborting the whole check."""
+    import traceback
+
+    tb = traceback.format_exc()
+    return dict({"op": op, "kind": "case-aborted-by-exception", "tag": "crash", "error": f"{type(ex).__name__}: {ex}"[:300],
+                 "traceback_tail": tb.strip().splitlines()[-6:]}, **extra)
